@@ -90,11 +90,11 @@ def model_roles(repo, md: FuncInfo):
   return roles, problems
 
 
-def _role_value(cf: ConstFolder, md: FuncInfo, roles, role: str):
+def _role_value(cf: ConstFolder, md: FuncInfo, roles, role: str, overrides=None):
   n = roles.get(role)
   if n is None:
     return UNKNOWN
-  return cf.eval(md.scope, ast.Name(id=n.id, ctx=ast.Load()))
+  return cf.eval(md.scope, ast.Name(id=n.id, ctx=ast.Load()), dict(overrides or {}))
 
 
 def _cmp(check: Check, where, name: str, a, b, what_a: str, what_b: str):
@@ -118,6 +118,56 @@ def _shakespeare(check: Check, cf: ConstFolder):
   pairs = [('PAD', 'pad'), ('BOS', 'bos'), ('EOS', 'eos'), ('OOV', 'oov'), ('VOCAB_SIZE', 'full_vocab_size')]
   for d, m in pairs:
     _cmp(check, md, f'shakespeare {d}', dsc[d], _role_value(cf, md, roles, m), f'datasets.shakespeare.{d}', f'models.shakespeare {m} id')
+  # the task wires dataset and model together: with the arguments get_task passes, the ids must still agree
+  gt = repo.func('fedjax.training.tasks', 'get_task')
+  for x in ast.walk(gt.node):
+    if isinstance(x, ast.Call) and txt(x.func) == 'models.shakespeare.create_lstm_model':
+      ov = {}
+      for p_, a in zip(md.positional_params, x.args):
+        ov[p_] = cf.eval(gt.scope, a)
+      for k in x.keywords:
+        if k.arg:
+          ov[k.arg] = cf.eval(gt.scope, k.value)
+      if not ov:
+        check.ob('R-CONST.task', gt, txt(x), True, 'the task uses the model defaults (compared above)', nontrivial=False)
+        continue
+      bad = []
+      for d, m_ in pairs:
+        mv = _role_value(cf, md, roles, m_, ov)
+        if isinstance(mv, Unknown) or isinstance(dsc[d], Unknown) or mv != dsc[d]:
+          bad.append(f'{d}: dataset {dsc[d]!r} vs model {mv!r}')
+      check.ob('R-CONST.task', gt, txt(x)[:90], not bad,
+               'with the arguments the task passes, the model\'s special ids / vocabulary size must equal the dataset\'s' +
+               (': ' + '; '.join(bad) if bad else ''), node=x)
+  # the look-up table only emits labels inside the vocabulary: default label = OOV
+  blt = repo.func(f'{DS}.shakespeare', '_build_look_up_table')
+  tcall = None
+  for st in ds.tree.body:
+    if isinstance(st, ast.Assign) and isinstance(st.value, ast.Call) and txt(st.value.func) == '_build_look_up_table':
+      tcall = st.value
+  if tcall is not None:
+    args = {}
+    for p_, a in zip(blt.positional_params, tcall.args):
+      args[p_] = cf.eval(ds.scope, a)
+    for k in tcall.keywords:
+      args[k.arg] = cf.eval(ds.scope, k.value)
+    env = dict(args)
+    for st in blt.node.body:
+      if isinstance(st, ast.Assign) and isinstance(st.targets[0], ast.Name):
+        env[st.targets[0].id] = cf.eval(blt.scope, st.value, env)
+    fills = [x for x in ast.walk(blt.node) if isinstance(x, ast.Call) and txt(x.func) in ('np.full', 'numpy.full') and len(x.args) >= 2]
+    for f_ in fills:
+      fv = cf.eval(blt.scope, f_.args[1], env)
+      ok = not isinstance(fv, Unknown) and fv == dsc['OOV'] and fv < dsc['VOCAB_SIZE']
+      check.ob('R-CONST.table', blt, txt(f_)[:70], ok,
+               f'bytes outside the vocabulary map to label {fv!r}; it must be the OOV label {dsc["OOV"]!r}, inside the vocabulary '
+               f'of size {dsc["VOCAB_SIZE"]!r}', node=f_)
+    # in-vocabulary labels start after the reserved ids
+    stores = [x for x in ast.walk(blt.node) if isinstance(x, ast.Assign) and isinstance(x.targets[0], ast.Subscript) and txt(x.targets[0].value) == txt(
+        fills[0].func.value if False else 'table')]
+    lab_ok = any(isinstance(x.value, ast.BinOp) and isinstance(x.value.op, ast.Add) and 'num_reserved' in txt(x.value) for x in ast.walk(blt.node)
+                 if isinstance(x, ast.Assign) and isinstance(x.targets[0], ast.Subscript))
+    check.ob('R-CONST.table', blt, 'table[c] = num_reserved + i', lab_ok, 'vocabulary bytes get labels after the reserved PAD/BOS/EOS ids')
   # preprocess_client uses the named constants
   pc = repo.func(f'{DS}.shakespeare', 'preprocess_client')
   names = {x.id for x in ast.walk(pc.node) if isinstance(x, ast.Name)}
